@@ -122,20 +122,36 @@ func runC19(c *eng.Ctx) {
 	// ---- 3. exactly one handler per stage execution path -------------------------------------------
 	c.Rule("PASS", bsT+".Execute{exactly-one-handler}", func() {
 		f := c.Fn(bsT + ".Execute")
-		if len(f.AnonFuncs) < 1 {
-			c.Undecided("execFn closure not found")
-		}
+		// the run of one stage: the function that calls stage.execute and then exactly one handler - a closure of Execute
+		// (handlers captured) or a helper Execute calls (handlers passed on as parameters)
 		var execFn *ssa.Function
+		cands := append([]*ssa.Function{}, f.AnonFuncs...)
 		for _, cl := range f.AnonFuncs {
-			if len(p.Sites(cl, eng.CallTo("fv:completeHandle"))) > 0 {
+			cands = append(cands, cl.AnonFuncs...)
+		}
+		for _, host := range append([]*ssa.Function{f}, cands...) {
+			for _, b := range host.Blocks {
+				for _, in := range b.Instrs {
+					if cl, ok := in.(*ssa.Call); ok {
+						if g := cl.Common().StaticCallee(); g != nil && g.Blocks != nil && strings.HasPrefix(p.FuncKey(g), bsT+".") && g != f {
+							cands = append(cands, g)
+						}
+					}
+				}
+			}
+		}
+		handlerOK := eng.CallTo("fv:completeHandle", "param:completeHandle")
+		handlerErr := eng.CallTo("fv:errHandle", "param:errHandle")
+		for _, cl := range cands {
+			if len(p.SitesDirect(cl, eng.CallTo(bsT+".execute"))) > 0 && len(p.SitesDirect(cl, handlerOK)) > 0 {
 				execFn = cl
 			}
 		}
 		if execFn == nil {
-			c.Undecided("no closure of baseStage.Execute calls completeHandle")
+			c.Undecided("no closure / helper of baseStage.Execute runs stage.execute and calls completeHandle")
 		}
-		okH := c.Some(execFn, eng.CallTo("fv:completeHandle"), "completeHandle()")
-		errH := c.Some(execFn, eng.CallTo("fv:errHandle"), "errHandle(err)")
+		okH := c.Some(execFn, handlerOK, "completeHandle()")
+		errH := c.Some(execFn, handlerErr, "errHandle(err)")
 		all := append(append([]eng.Site{}, okH...), errH...)
 		_, skip := eng.PathExists(eng.PathQuery{Fn: execFn, Target: func(in ssa.Instruction) bool { _, ok := in.(*ssa.Return); return ok },
 			Blocked: func(in ssa.Instruction) bool { return instrIn(in, all) }})
@@ -163,7 +179,7 @@ func runC19(c *eng.Ctx) {
 			if !ok {
 				return false
 			}
-			return strings.HasSuffix(p.Desc(cl.Common().Value), p.FuncKey(execFn))
+			return cl.Common().StaticCallee() == execFn || strings.HasSuffix(p.Desc(cl.Common().Value), p.FuncKey(execFn))
 		})
 		submit := c.Some(f, invokeOn(".execPool", "Submit"), "execPool.Submit")
 		ways := append(append([]eng.Site{}, direct...), submit...)
@@ -198,7 +214,7 @@ func runC19(c *eng.Ctx) {
 				h := mc.Fn.(*ssa.Function)
 				okRun = p.MustPass(h, func(p *eng.Prog, in ssa.Instruction) bool {
 					cl, ok := in.(*ssa.Call)
-					return ok && strings.HasSuffix(p.Desc(cl.Common().Value), "execFn")
+					return ok && (cl.Common().StaticCallee() == execFn || strings.HasSuffix(p.Desc(cl.Common().Value), "execFn"))
 				}, 0)
 			} else if strings.HasSuffix(p.Desc(ta[0]), p.FuncKey(execFn)) {
 				okRun = true
@@ -362,7 +378,29 @@ func runC19(c *eng.Ctx) {
 			args := eng.CallArgs(s.Instr.(*ssa.Call))
 			if eng.IsNilConst(args[1]) {
 				fs := facts.At(s.Instr)
-				c.Check(len(facts.Find(fs, "eq", eng.DescIs("err"), eng.DescIs("nil"))) > 0, "result-only-without-error", s.Instr, f,
+				okNil := len(facts.Find(fs, "eq", eng.DescIs("err"), eng.DescIs("nil"))) > 0
+				if !okNil {
+					// the pipeline error merged with a later one into one variable: `merged == nil` implies `err == nil` when every way
+					// into the merge either carries err itself or is taken only under err == nil
+					errP := ssa.Value(f.Params[1])
+					for _, ft := range facts.Find(fs, "eq", func(_ string, v ssa.Value) bool { _, ok := v.(*ssa.Phi); return ok }, eng.DescIs("nil")) {
+						ph := ft.X.(*ssa.Phi)
+						all := true
+						for k, e := range ph.Edges {
+							if e == errP {
+								continue
+							}
+							ef := facts.EdgeFactsFor(ph.Block().Preds[k], ph.Block())
+							if len(facts.Find(ef, "eq", func(_ string, v ssa.Value) bool { return v == errP }, eng.DescIs("nil"))) == 0 {
+								all = false
+							}
+						}
+						if all && len(ph.Edges) > 0 {
+							okNil = true
+						}
+					}
+				}
+				c.Check(okNil, "result-only-without-error", s.Instr, f,
 					"a result set (nil error) is sent only on the path where the pipeline error is nil", "facts: "+strings.Join(facts.Render(fs), " ; "))
 			}
 		}
@@ -636,7 +674,7 @@ func runC19(c *eng.Ctx) {
 			c.Undecided("the metadata pipeline callback was not found")
 		}
 		var em, pl ssa.Value
-		var at ssa.Instruction
+		var at, plStore ssa.Instruction
 		for _, b := range cb.Blocks {
 			for _, in := range b.Instrs {
 				st, ok := in.(*ssa.Store)
@@ -651,7 +689,9 @@ func runC19(c *eng.Ctx) {
 				case strings.HasSuffix(k, "TaskResponse.ErrMsg"):
 					em, at = st.Val, in
 				case strings.HasSuffix(k, "TaskResponse.Payload"):
-					pl = st.Val
+					if pl == nil || eng.IsNilConst(pl) {
+						pl, plStore = st.Val, in
+					}
 				}
 			}
 		}
@@ -672,6 +712,21 @@ func runC19(c *eng.Ctx) {
 		}
 		plPhi, ok2 := pl.(*ssa.Phi)
 		if !ok2 || plPhi.Block() != emPhi.Block() {
+			// other shape: the payload is attached by a separate store that runs only under a test of the outcome
+			// (the callback's error or the message chosen from it)
+			if plStore != nil && !eng.IsNilConst(pl) {
+				conds, _ := eng.GuardingConds(cb, plStore)
+				byOutcome := false
+				for _, cd := range conds {
+					if eng.DependsOn(cd, func(x ssa.Value) bool { return x == ssa.Value(cb.Params[0]) || x == em }) {
+						byOutcome = true
+					}
+				}
+				if byOutcome {
+					c.Check(true, "payload-attached-by-outcome", plStore, cb, "the payload is attached under a test of the callback's outcome", "")
+					return
+				}
+			}
 			c.Check(eng.IsNilConst(pl), "payload-nil-when-error", at, cb,
 				"an answer that carries an error message carries no payload: MetadataContext.handleResponse never reads ErrMsg, it reports a failed leaf only because the empty payload does not decode; with a decodable payload next to the message the failure becomes a successful partial answer",
 				"Payload = "+p.Desc(pl)+" on every path, also where ErrMsg is set")
